@@ -11,7 +11,7 @@ from concurrent.futures import ThreadPoolExecutor
 
 VERIF = "/verif"
 PY = "/venv/bin/python"
-PROPS = ["C%02d" % i for i in range(1, 20)]
+PROPS = os.environ.get("PROPS", "").split(",") if os.environ.get("PROPS") else ["C%02d" % i for i in range(1, 20)]
 
 
 def one(sid):
